@@ -447,7 +447,7 @@ class GatherData(Contract):
     sequence of every gene involved from the chromosome of a transcript of that gene, the annotation handed on is restricted to the
     transcripts involved and built from copies (the reference annotation is not modified), and the run's own cleavage parameters and
     flags are carried unchanged"""
-    path, qualname, props = CVP, 'VariantPeptideCaller.gather_data_for_call_variant', ('C06', 'C15', 'C07')
+    path, qualname, props = CVP, 'VariantPeptideCaller.gather_data_for_call_variant', ('C06', 'C15', 'C07', 'C05')
     declared_raises = ['ValueError']
     assumptions = ('external: VariantRecordPoolOnDisk lookups (return a series or raise ValueError / KeyError), the series predicates, '
                    'get_transcript_sequence / get_gene_sequence (functions of the model and the chromosome sequence), copy.deepcopy (a new object)',
@@ -599,12 +599,31 @@ class GatherData(Contract):
         return [('sequence-of-the-k-th-transcript-stored-once', len(txw) == 1 and z3.is_true(z3.simplify(txw[0][1].fields['t'] == TXID(k)))),
                 ('gene-of-the-k-th-transcript-stored-unless-present', len(gw) <= 1 and all(z3.is_true(z3.simplify(x[1].fields['g'] == GENE_OF(TXID(k)))) for x in gw))]
 
+    # loop 2: the variants of the other transcripts involved
+    def head2(self, I, env, k):
+        st = self._cur
+        st.m2 = (len(st.lookups), len(st.pool_sets))
+
+    def step2(self, I, env, k):
+        st = self._cur
+        looks, sets = st.lookups[st.m2[0]:], st.pool_sets[st.m2[1]:]
+        is_main = TXID(k) == st.main
+        items = [('main-transcript-not-looked-up-again', z3.Implies(is_main, len(looks) == 0 and len(sets) == 0))]
+        if looks:
+            items.append(('variants-of-the-k-th-transcript-looked-up-once', len(looks) == 1 and z3.is_true(z3.simplify(looks[0].fields['t'] == TXID(k)))))
+            if sets:
+                items.append(('its-series-handed-on-under-its-own-id', len(sets) == 1 and z3.is_true(z3.simplify(sets[0][0].fields['t'] == TXID(k)))
+                              and isinstance(sets[0][1], SymObj) and sets[0][1].cls == 'Series06b' and z3.is_true(z3.simplify(sets[0][1].fields['t'] == TXID(k)))))
+        else:
+            items.append(('only-the-main-transcript-is-skipped', is_main))
+        return items
+
     @property
     def loops(self):
         T = lambda I, env, k: []
         return {0: LoopSpec(inv=T, on_init=self.init0, havoc=self.havoc0, on_head=self.head0, step=self.step0),
                 1: LoopSpec(inv=T, havoc=lambda I, env, k: env.__setitem__('gene_models', types.SimpleNamespace(sym_setitem=lambda I2, key, v: None))),
-                2: LoopSpec(inv=T)}
+                2: LoopSpec(inv=T, on_head=self.head2, step=self.step2, on_break=lambda I, env, k: [('every-involved-transcript-is-looked-at', False)])}
 
     def post_return(self, I, st, ret):
         e = I.e
